@@ -19,8 +19,16 @@ def check_seq(ctx, case):
     pat = ref.pattern(seq)
     ncharged = sum(1 for q in pat if q)
     ctx.count(case, nontrivial=ncharged >= 2, classes=gens.classify(seq))
-    got = util.spw(seq, case).get_SCD()
+    o = util.spw(seq, case)
+    got = o.get_SCD()
     want = ref.scd(pat)
+    if case.get("child"):
+        # a shuffled copy is a sequence like any other: its SCD is that of its own charge pattern
+        ch = util.shuffled_child(o, case["child"])
+        cs = ch.get_sequence()
+        ctx.check(sorted(cs) == sorted(seq), "child-not-a-rearrangement", "get_shuffled_sequence returned %r for %r" % (cs, seq), case)
+        ctx.check(ref.close(ch.get_SCD(), ref.scd(ref.pattern(cs))), "child-value", "get_SCD()=%r on the shuffled copy %s (frozen %r) of %s, reference %r" % (
+            ch.get_SCD(), cs, case["child"].get("frozen"), seq, ref.scd(ref.pattern(cs))), case)
     if ncharged < 2:
         ctx.check(got == 0, "zero", "SCD must be exactly 0 with <2 charged residues, got %r" % (got,), case)
     ctx.check(ref.close(got, want), "value", "get_SCD()=%r, reference %r" % (got, want), case)
@@ -44,7 +52,7 @@ def hyp_case(draw, max_len):
     warm = draw(gens.warmups())
     s = draw(gens.sequences(max_len=60 if warm else max_len))
     alt = draw(gens.spelled(ref.pattern(s)))
-    return {"seq": s, "respell": alt, "warm": warm, "paste": draw(gens.paste_opt())}
+    return {"seq": s, "respell": alt, "warm": warm, "paste": draw(gens.paste_opt()), "child": draw(gens.child_opt())}
 
 
 def few_charge_cases(tier, seed):
